@@ -58,6 +58,8 @@ def run(path):
                 s.eval(e["toks"], e["stats"])
             elif e["ev"] == "validate":
                 s.validate(e["tokens"])
+            elif e["ev"] == "validate_cfg":
+                s.validate_cfg([("test%d" % i, entries) for i, entries in enumerate(e["tests"])])
             else:
                 print("creator events are replayed by re-running ./vcheck C20 (the synthetic climatology is regenerated from the seed)")
                 s.add(e)
